@@ -10,7 +10,9 @@ let hex8_of_z (b:z) : string = Printf.sprintf "%08x" (int_of_z b)
 let opt f s = if s = "-" then None else Some (f s)
 let rest s = String.sub s 1 (String.length s - 1)
 
-let parse_scalar (v:string) : scalar =
+(* (the extraction renames what SaveModel shares with C14's SugarModel: scalar0, KI0 KF0 KT0 KO0 KS0,
+   p_min0 p_max0) *)
+let parse_scalar (v:string) : scalar0 =
   match v.[0] with
   | 'i' -> VI (z_of_string (rest v))
   | 'c' -> VC (z_of_string (rest v))
@@ -20,7 +22,7 @@ let parse_scalar (v:string) : scalar =
   | 's' -> VS (bytes_of_hex (rest v))
   | 'S' -> VSym (bytes_of_hex (rest v))
   | _ -> failwith "scalar"
-let parse_value (s:string) : scalar list = if s = "-" then [] else List.map parse_scalar (split_on ':' s)
+let parse_value (s:string) : scalar0 list = if s = "-" then [] else List.map parse_scalar (split_on ':' s)
 let show_scalar = function
   | VI z -> "i" ^ z_to_string z
   | VC z -> "c" ^ z_to_string z
@@ -37,8 +39,8 @@ let dump_scalar = function
 
 let parse_kind (s:string) : skind =
   match s.[0] with
-  | 'c' -> KC | 'i' -> KI | 'b' -> KB | 'f' -> KF | 't' -> KT | 'o' -> KO
-  | 's' -> KS (nat_of_int (int_of_string (rest s)))
+  | 'c' -> KC | 'i' -> KI0 | 'b' -> KB | 'f' -> KF0 | 't' -> KT0 | 'o' -> KO0
+  | 's' -> KS0 (nat_of_int (int_of_string (rest s)))
   | _ -> failwith "kind"
 let idx_list s = if s = "-" then [] else List.map (fun x -> nat_of_int (int_of_string x)) (split_on '.' s)
 
@@ -50,7 +52,7 @@ let parse_port (s:string) : port =
   | [path; kind; arr; len; mn; mx; opts; dflt; sel; table; hard; soft; nodef; init] ->
     { p_path = bytes_of_hex path; p_kind = parse_kind kind; p_array = (arr = "1");
       p_len = nat_of_int (int_of_string len);
-      p_min = opt z_of_string mn; p_max = opt z_of_string mx;
+      p_min0 = opt z_of_string mn; p_max0 = opt z_of_string mx;
       p_opts = (if opts = "-" then [] else List.map (fun kv ->
           match split_on '=' kv with [k; v] -> (z_of_string k, bytes_of_hex v) | _ -> failwith "opt") (split_on '+' opts));
       p_default = parse_value dflt;
@@ -66,7 +68,7 @@ let parse_apro (s:string) : (z list -> pmeta option) =
   let ov x = if x = "n" then None else Some (let h = rest x in if h = "" then [] else bytes_of_hex h) in
   let tbl = if s = "-" then [] else List.map (fun e ->
       match split_on ',' e with
-      | [p; a; b; c] -> ((if p = "-" then [] else bytes_of_hex p), { enabled_by = ov a; depends = ov b; default_depends = ov c })
+      | [p; a; b; c] -> ((if p = "-" then [] else bytes_of_hex p), { enabled_by = ov a; depends = ov b; default_depends = ov c; port_name = [] })
       | _ -> failwith "apro") (split_on ';' s) in
   fun p -> List.assoc_opt p tbl
 
@@ -93,6 +95,116 @@ let parse_apro_tree (tree:string) : (z list -> pmeta option) =
     | None -> let r = apropos_of_tree root p in Hashtbl.add memo p r; r
 
 let fuel = nat_of_int 40
+
+(* ---- the tree stages (Save/TreeApp.v): the case's port tree as a [pt] - names and structure
+   from the tree field, the data of a leaf from the flat application (the port of that name
+   at that depth).  None: the tree is outside the class of TreeApp.v (rSelf / "name/toggle"
+   forms of 'enabled by', a pointer sub-tree that never exists). *)
+exception Outside
+let last_comp (p:z list) : z list =
+  let s = string_of_chars p in
+  match String.rindex_opt s '/' with
+  | Some i -> chars_of_string (String.sub s (i + 1) (String.length s - i - 1))
+  | None -> p
+let depth_of (p:z list) : int = List.length (List.filter (fun c -> int_of_z c = 47) p)
+let pt_of_case (tree:string) (a:port list) : pt list option =
+  if String.length tree >= 7 && String.sub tree 0 7 = "static@" then None else
+  let levels = Array.of_list (String.split_on_char '|' tree) in
+  let rec table (t:int) : pt list =
+    if t >= Array.length levels then [] else begin
+      let items = List.map (String.split_on_char ',') (split_on ';' levels.(t)) in
+      let enabler = List.fold_left (fun acc it -> match it with ["e"; f] -> Some f | _ -> acc) None items in
+      let ptr_init = List.exists (fun it -> it = ["n"; "1"]) items in
+      let leaf_name nm =
+        let s = string_of_chars (bytes_of_hex nm) in
+        let cut = (try String.index s '#' with Not_found -> (try String.index s ':' with Not_found -> String.length s)) in
+        let arr = (match String.index_opt s '#' with
+            | Some i ->
+              let j = ref (i + 1) in
+              while !j < String.length s && s.[!j] >= '0' && s.[!j] <= '9' do j := !j + 1 done;
+              Some (nat_of_int (int_of_string (String.sub s (i + 1) (!j - i - 1))))
+            | None -> None) in
+        (chars_of_string (String.sub s 0 cut), arr) in
+      let name_of_fid f =
+        List.fold_left (fun acc it -> match it with
+            | ["p"; f'; nm; _] when f' = f -> Some (fst (leaf_name nm))
+            | _ -> acc) None items in
+      List.filter_map (fun it ->
+          match it with
+          | ["p"; "self"; _; _] -> raise Outside
+          | ["p"; "subp"; _; _] -> None          (* "name:" - the object pointer, no parameter *)
+          | ["p"; fid; nm; meta] when fid = "sub" || fid = "arr" || fid = "ptr" ->
+            let s = string_of_chars (bytes_of_hex nm) in
+            let s = String.sub s 0 (String.length s - 1) in
+            let (n, enum) = (match String.index_opt s '#' with
+                | Some i -> (String.sub s 0 i, Some (nat_of_int (int_of_string (String.sub s (i + 1) (String.length s - i - 1)))))
+                | None -> (s, None)) in
+            let eb = meta_value (Some (bytes_of_hex meta)) key_enabled_by in
+            let ptr = (if fid = "ptr" then
+                         (match enabler with
+                          | Some f -> (match name_of_fid f with Some x -> Some x | None -> raise Outside)
+                          | None -> if ptr_init then None else raise Outside)
+                       else None) in
+            let sw = (if fid = "ptr" then None else
+                        match eb with
+                        | Some v -> if List.exists (fun c -> int_of_z c = 47) v then raise Outside else Some v
+                        | None -> None) in
+            Some (PSub (chars_of_string n, enum, ptr, sw, table (t + 1)))
+          | ["p"; _; nm; _] ->
+            let (n, arr) = leaf_name nm in
+            (match List.find_opt (fun p -> depth_of p.p_path = t + 1 && last_comp p.p_path = n) a with
+             | None -> raise Outside
+             | Some p ->
+               let sel = (match p.p_sel with
+                   | Some j -> Some (last_comp (port_at a j).p_path)
+                   | None -> None) in
+               Some (PLeaf (n, arr, { ld_kind = p.p_kind; ld_min = p.p_min0; ld_max = p.p_max0; ld_opts = p.p_opts;
+                                      ld_default = p.p_default; ld_sel = sel; ld_table = p.p_table;
+                                      ld_nodef = p.p_nodef; ld_init = p.p_init })))
+          | _ -> None) items
+    end in
+  try Some (table 0) with Outside -> None | Invalid_argument _ -> None | Failure _ -> None
+
+(* the checks of the tree stages for one state: the flattening is the case's application,
+   names_ok holds, walk_ports with the runtime object reaches the live ports, the saved lines
+   handed to Ports::dispatch on the tree (C04 + C14) give what apply_line gives.  "" = all hold
+   (or the tree is outside the class). *)
+let tree_mark (tree:string) (a:port list) (ap:z list -> pmeta option) (sa:value list) : string =
+  let stat x = if Sys.getenv_opt "TREEDBG" <> None then prerr_endline ("TREESTAT " ^ x) in
+  match pt_of_case tree a with
+  | None -> stat "outside"; ""
+  | Some t ->
+    stat (if names_ok (sports_of t) then "checked" else "names_ok=false");
+    (* the case's application lists the leaves of a table in front of its sub-trees, app_of_tree
+       in table order (the walk's): compared port by port through the addresses *)
+    let b = app_of_tree t in
+    let path_of app i = (port_at app i).p_path in
+    let norm app = List.sort compare (List.mapi (fun _ p ->
+        (p.p_path, (p.p_kind, p.p_array, p.p_len, p.p_min0, p.p_max0),
+         (p.p_opts, p.p_default, p.p_table, p.p_nodef, p.p_init),
+         ((match p.p_sel with Some j -> Some (path_of app j) | None -> None),
+          List.map (path_of app) p.p_hard, List.map (path_of app) p.p_soft))) app) in
+    if norm b <> norm a then "TREEMODEL(flattening) "
+    else if not (names_ok (sports_of t)) then ""       (* hypothesis of the tree theorems: e.g. q0n beside q#3/ is outside *)
+    else begin
+      (* the state in the order of b *)
+      let idx_in_a p = let rec go i = function [] -> raise Not_found | q :: r -> if q.p_path = p then i else go (i + 1) r in go 0 a in
+      let sb = List.map (fun p -> val_at sa (nat_of_int (idx_in_a p.p_path))) b in
+      let n = List.length b in
+      let lives = List.filter (fun i -> live b sb (nat_of_int i)) (List.init n (fun i -> i)) in
+      if List.map int_of_nat (walk_tree t sb) <> lives then "TREEMODEL(walk) "
+      else begin
+        let ls = save_lines b sb in
+        let ms = List.map (fun l -> (l.l_path, l)) ls in
+        match load_order ap fuel ms with
+        | None -> ""
+        | Some order ->
+          let sorted = List.map (fun i -> List.nth ls (int_of_nat i)) order in
+          let run f = List.fold_left (fun s l -> match s with Some s -> f l s | None -> None) (Some (initial b)) sorted in
+          if run (fun l s -> tree_apply_line nohash len_id t l s) <> run (fun l s -> apply_line b l s)
+          then "TREEMODEL(dispatch) " else ""
+      end
+    end
 
 (* `declared a apropos` (hypothesis of C13_perm_invariant / C12's sorted pipeline),
    evaluated for the lookup of this case's port tree: when it does not hold the
@@ -152,7 +264,7 @@ let () = each_line (fun line ->
       (match load_file ap fuel a (chars_of_string "app") f st0 with
        | None -> print_endline "NOFUEL"
        | Some (r, sb) ->
-         Printf.printf "%shdr=1 lines=%s ret=%s A=%s B=%s fresh=%s\n" (decl_mark a ap) (show_lines ls) (z_to_string r)
+         Printf.printf "%s%shdr=1 lines=%s ret=%s A=%s B=%s fresh=%s\n" (decl_mark a ap) (tree_mark tree a ap sa) (show_lines ls) (z_to_string r)
            (dump a sa) (dump a sb) (show_lines (save_lines a st0)))
     | "perm" :: tree :: flat :: _ :: groups :: _ :: mops :: _ ->
       let a = parse_app flat in
